@@ -220,7 +220,7 @@ int main(int argc, char **argv)
 	nx_trace_every = atoi(nv_arg(argc, argv, "trace", nv_thorough ? "97" : "41"));
 	setenv("EXINIT", "", 1);
 	build_ops();
-	d = atoi(nv_arg(argc, argv, "depth", nv_thorough ? "3" : "2"));
+	d = atoi(nv_arg(argc, argv, "depth", nv_thorough ? "8" : "4"));
 	if (nv_arg(argc, argv, "cfg", NULL)) {
 		sscanf(nv_arg(argc, argv, "cfg", "0,0,0"), "%d,%d,%d", &b, &r, &o);
 		nx_shard_div = 1;
